@@ -315,7 +315,7 @@ pub fn cases(tier: Tier, seed: u64) -> Vec<Case> {
 }
 
 pub fn run(ctx: &Ctx) {
-    ctx.set_rule("anchor/probe/sentinel scripts whose probe depth in inner loop l is set near the temperature the requested schedule implies (p ~ 1/e); configurations: kt_ratio given (exact schedule kt_start (1-ratio)^l; also with kt_finish set at the same time), kt_finish given (allowed: a constant factor between (finish/start)^(1/(L-2)) and (finish/start)^(1/L), i.e. the last loop within one cooling step of kt_finish; cooling and heating; heating by factors 2-100 per loop with probes 4 and 6 kT deep), neither (first loop only), kt_start = 0 (every worse probe in every loop rejected); L in {1,2,3,10,50} and thousands of 3- or 6-step loops; the same schedules with a convergence threshold set that is never met; runs asked for 2^31..2^40 loops that leave through the convergence exit after six; through the CLI parser and the builder API, on fresh builders and on builders with a history of earlier setter calls (other step counts, loop lengths, temperatures first; clones). Per window of loops the acceptance count is compared with the probability interval implied by the allowed temperature interval (Chernoff/KL bound < 1e-12 to flag); first and second halves of the loops are compared with the same interval (constancy within a loop). Non-trivial = configurations with >= 3 loops; distinct by configuration");
+    ctx.set_rule("anchor/probe/sentinel scripts whose probe depth in inner loop l is set near the temperature the requested schedule implies (p ~ 1/e); configurations: kt_ratio given (exact schedule kt_start (1-ratio)^l; also with kt_finish set at the same time), kt_finish given (allowed: a constant factor between (finish/start)^(1/(L-2)) and (finish/start)^(1/L), i.e. the last loop within one cooling step of kt_finish; cooling and heating; heating by factors 2-100 per loop with probes 4 and 6 kT deep), neither (first loop only), kt_start = 0 (every worse probe in every loop rejected, also over 700-1800 loops with cooling factors 2, -3, 1.5, -2 whose powers overflow); L in {1,2,3,10,50} and thousands of 3- or 6-step loops; the same schedules with a convergence threshold set that is never met; runs asked for 2^31..2^40 loops that leave through the convergence exit after six; through the CLI parser and the builder API, on fresh builders and on builders with a history of earlier setter calls (other step counts, loop lengths, temperatures first; clones). Per window of loops the acceptance count is compared with the probability interval implied by the allowed temperature interval (Chernoff/KL bound < 1e-12 to flag); first and second halves of the loops are compared with the same interval (constancy within a loop). Non-trivial = configurations with >= 3 loops; distinct by configuration");
     ctx.assume("temperature is inferred from acceptance frequencies; resolution ~1.3/sqrt(n) relative per window");
     let cs = cases(ctx.tier, ctx.seed);
     let prev = std::panic::take_hook();
